@@ -24,14 +24,14 @@ type Val struct {
 	M map[string]Val `json:"m,omitempty"`
 }
 
-func Nil() Val             { return Val{K: "nil"} }
-func Missing() Val         { return Val{K: "missing"} }
-func Int(i int64) Val      { return Val{K: "int", I: i} }
-func Int64(i int64) Val    { return Val{K: "int64", I: i} }
-func Str(s string) Val     { return Val{K: "str", S: s} }
-func Bool(b bool) Val      { return Val{K: "bool", B: b} }
-func Float(f float64) Val  { return Val{K: "float64", F: strconv.FormatFloat(f, 'g', -1, 64)} }
-func List(l ...Val) Val    { return Val{K: "list", L: l} }
+func Nil() Val                 { return Val{K: "nil"} }
+func Missing() Val             { return Val{K: "missing"} }
+func Int(i int64) Val          { return Val{K: "int", I: i} }
+func Int64(i int64) Val        { return Val{K: "int64", I: i} }
+func Str(s string) Val         { return Val{K: "str", S: s} }
+func Bool(b bool) Val          { return Val{K: "bool", B: b} }
+func Float(f float64) Val      { return Val{K: "float64", F: strconv.FormatFloat(f, 'g', -1, 64)} }
+func List(l ...Val) Val        { return Val{K: "list", L: l} }
 func Map(m map[string]Val) Val { return Val{K: "map", M: m} }
 
 func (v Val) IsMissing() bool { return v.K == "missing" }
@@ -242,6 +242,29 @@ func Pause() *rapid.Generator[int] {
 			return 3
 		default:
 			return 4
+		}
+	})
+}
+
+// CollidingPair returns two distinct tuples of n >= 2 string components (plus filler) built to coincide under a
+// naive separator join: (x+sep+y, z, ...) vs (x, y+sep+z, ...), or a NULL component next to a look-alike literal.
+func CollidingPair() *rapid.Generator[[2][]Val] {
+	return rapid.Custom(func(t *rapid.T) [2][]Val {
+		parts := []string{"a", "b", "c", "", "x"}
+		x := rapid.SampledFrom(parts).Draw(t, "cx")
+		y := rapid.SampledFrom(parts).Draw(t, "cy")
+		z := rapid.SampledFrom(parts).Draw(t, "cz")
+		sep := rapid.SampledFrom([]string{"|", "\x1f", ",", "\x00", ":"}).Draw(t, "csep")
+		switch rapid.IntRange(0, 3).Draw(t, "ckind") {
+		case 0:
+			return [2][]Val{{Str(x + sep + y), Str(z)}, {Str(x), Str(y + sep + z)}}
+		case 1:
+			lit := rapid.SampledFrom([]string{"", "\\N", "\x00NULL", "<nil>", "NULL", "nil"}).Draw(t, "clit")
+			return [2][]Val{{Nil(), Str(z)}, {Str(lit), Str(z)}}
+		case 2:
+			return [2][]Val{{Str(x), Nil()}, {Str(x + sep), Str("")}}
+		default:
+			return [2][]Val{{Str(x + sep), Str(y)}, {Str(x), Str(sep + y)}}
 		}
 	})
 }
